@@ -57,6 +57,22 @@ def _up(v):
     return None if v is None else v + SHIFT
 
 
+class DoneStub:
+    """stands for a dispatch that was carried out without a task (nothing of the kind exists in the unchanged code)"""
+
+    def done(self):
+        return True
+
+    def cancelled(self):
+        return False
+
+    def exception(self):
+        return None
+
+    def cancel(self):
+        return False
+
+
 class Impl:
     """one history on the real EventManager"""
 
@@ -171,7 +187,10 @@ class Impl:
                 self.loop.create_task(self.em.dispatch(name, v - SHIFT))
             else:
                 self.em.dispatch_nowait(name, v - SHIFT)
-            assert len(self.dtasks) == n_before + 1
+            if len(self.dtasks) == n_before:
+                # no dispatch task appeared: the call did its work synchronously
+                self.dtasks.append(DoneStub())
+                self.dinfo.append(dict(name=name, init=v, op=self.op_index, no_task=True))
         elif k == "load":
             other = text.endswith("!")
             entries = [e.split("=") for e in text.rstrip("!").split(":", 1)[1].split(",")]
@@ -485,6 +504,14 @@ def spec_checks(scripts, ops, im):
                     bad.append(f"data[{name}] became {val} in a loop run in which no dispatch of {name} finished")
                 elif val not in [finals[i] for i in cands]:
                     bad.append(f"data[{name}] = {val} is not the final value {[finals[i] for i in cands]} of a dispatch that finished")
+        # dispatches of one name that never suspend are atomic and run in the order they were issued: when several of them
+        # finish in one loop run (and nothing else of that name does) the stored value is the outcome of the LAST one issued
+        for name in {im.dinfo[i]["name"] for i in newly}:
+            cands = [i for i in newly if im.dinfo[i]["name"] == name]
+            never_susp = all(scripts.get(cb, (0, None))[0] == 0 for t, cb, _ in im.log if t in cands)
+            if len(cands) >= 2 and never_susp and sn["data"].get(name) != finals[max(cands)]:
+                bad.append(f"dispatches {cands} of {name} never suspend and were issued in this order, yet after the loop run data[{name}] = "
+                           f"{sn['data'].get(name)} and not the outcome {finals[max(cands)]} of the last one: the stored value went back in time")
         for i in newly:
             name = im.dinfo[i]["name"]
             others = [k for k in newly if k != i and im.dinfo[k]["name"] == name]
@@ -838,6 +865,13 @@ def run(ctx):
                     runs.append(("enumerated", r[0], r[1], r[2]))
     answers = driver_batch(" ".join(["c13", scripts_text(s)] + lean_ops(ops)) for _, s, ops, _ in runs)
     judges = driver_batch(" ".join(["c13judge", scripts_text(s)] + lean_ops(ops) + ["|", im.obs_text()]) for _, s, ops, im in runs)
+    # the tightened judge (C13.specT) on the machine's OWN observation of the same history: evidence for `holds_tight_full`
+    selfj = driver_batch(" ".join(["c13self", scripts_text(s)] + lean_ops(ops)) for _, s, ops, _ in runs)
+    for (label, scripts, ops, im), sj in zip(runs, selfj):
+        res.count("machine's own observation under the tightened judge: " + ("pass" if sj == "pass" else "FAIL"))
+        if sj != "pass":
+            res.fail("corr", dict(case=scripts_text(scripts) + " " + " ".join(ops), label=label), "C13.specT passes on the machine's observation", sj,
+                     "the interleaving machine itself does not satisfy the tightened judge on this history: " + sj)
     for (label, scripts, ops, im), ans, judge in zip(runs, answers, judges):
         if ans == "bad-op":
             res.fail("corr", dict(case=scripts_text(scripts) + " " + " ".join(ops)), "parsable", ans, "driver rejected the request")
